@@ -1,4 +1,5 @@
 """Shared stream builder for C01/C02 (and reused by C05): harness/ntt.cpp on three backends."""
+import json, os
 import checklib as cl
 
 NTT_SPECS = [dict(name="ntt", backend=b, sanitize=None, extra=(["-DMIN16=8", "-DMIN32=8"] if b != "serial" else []))
@@ -19,3 +20,31 @@ def ntt_streams(ctx, res, ops, seeds=None, tier=None):
             jobs.append(dict(label="ntt/%s/seed%s" % (b, sd), exe=exe, env=env, line_filter=flt))
     cl.run_streams_parallel(res, jobs)
     return {"backends": sorted(b for (_, b) in exes)}
+
+
+def translators_ntt(repo):
+    """source-level tie of the SCALAR transform kernels: Generated/NttAst.lean is re-translated from clang's AST of
+    ntt_loop_body<simd::serial>::operator() (algos.hpp) and of the straight-line blocks of poly::core::ntt (core.hpp:
+    degree-2 block, body of the last-two-layers loop, NTT_STRICTMOD statement) on every run; the equalities with the hand
+    model (Proofs/NttAstEq.lean) and the transported per-block C02 facts (Properties/C02Ast.lean) are then re-checked by
+    `lake build`.  The loop structure (indices, table-pointer advance, bit reversal) stays hand-modelled."""
+    r = cl.run(["python3", os.path.join(cl.HERE, "gen_ntt_ast.py"), "--repo", repo])
+    info = {"ok": r.returncode == 0}
+    if r.returncode != 0:
+        info["err"] = (r.stdout + r.stderr)[-2000:]
+    else:
+        try:
+            info.update(json.loads(r.stdout.strip().splitlines()[-1]))
+            info.pop("node_kinds", None)
+        except Exception as e:
+            info["ok"] = False
+            info["err"] = "unparsable summary: %s" % e
+    return {"gen_ntt_ast": info}
+
+
+NTT_AST_TB = ("source-level tie of the scalar transform kernels (arithmetic blocks only): clang++-14's typed AST (-ast-dump=json) of the "
+              "instantiated ntt_loop_body<simd::serial>::operator() and poly::core::ntt, tools/gen_ntt_ast.py's traversal and its "
+              "block-extraction convention (one cell per (pointer, constant index); all reads before all writes, checked; written cells "
+              "distinct), the per-node integer semantics of lean/NflVerif/Model/CSem.lean (signed `int` overflow read as wrap-around at the "
+              "sites listed under translators.gen_ntt_ast.ub_wrap_assumed; unsigned->signed conversion modular); the loop structure, the "
+              "table-pointer advance and the bit reversal are NOT translated (hand model + differential stream)")
